@@ -59,6 +59,41 @@ type CheckCfg struct {
 	TimeBudgetS int               `json:"time_budget_s"`
 	TimeBudgetThoroughS int       `json:"time_budget_thorough_s"`
 	NoSpeculate bool              `json:"no_speculate"`
+	Replace     map[string]string `json:"replace"` // module path -> directory (relative to the harness dir) used via a generated -modfile
+}
+
+// prepareModfile writes dst/go.mod + go.sum (copies of the repo's, plus replace directives) and
+// returns the go flag selecting it, or "" when the check has no replacements.
+func prepareModfile(repo, hdir string, cc *CheckCfg, dst string) (string, error) {
+	if len(cc.Replace) == 0 {
+		return "", nil
+	}
+	mod, err := os.ReadFile(filepath.Join(repo, "go.mod"))
+	if err != nil {
+		return "", err
+	}
+	sum, _ := os.ReadFile(filepath.Join(repo, "go.sum"))
+	var sb strings.Builder
+	sb.Write(mod)
+	sb.WriteString("\n")
+	keys := make([]string, 0, len(cc.Replace))
+	for k := range cc.Replace {
+		keys = append(keys, k)
+	}
+	sort.Strings(keys)
+	for _, k := range keys {
+		d := cc.Replace[k]
+		if !filepath.IsAbs(d) {
+			d = filepath.Join(hdir, d)
+		}
+		d, _ = filepath.Abs(d)
+		fmt.Fprintf(&sb, "replace %s => %s\n", k, d)
+	}
+	if err := os.WriteFile(filepath.Join(dst, "go.mod"), []byte(sb.String()), 0o644); err != nil {
+		return "", err
+	}
+	os.WriteFile(filepath.Join(dst, "go.sum"), sum, 0o644)
+	return "-modfile=" + filepath.Join(dst, "go.mod"), nil
 }
 
 type runCfg struct {
@@ -194,6 +229,9 @@ func loadProgram(repo, hdir string, cc *CheckCfg) (*Program, error) {
 			return nil, err
 		}
 		ap := filepath.Join(repo, virt)
+		if filepath.IsAbs(virt) {
+			ap = virt
+		}
 		overlay[ap] = data
 		harnessFiles[ap] = true
 	}
@@ -214,6 +252,18 @@ func loadProgram(repo, hdir string, cc *CheckCfg) (*Program, error) {
 	}
 	patterns = append(patterns, cc.Std...)
 	flags := []string{}
+	if len(cc.Replace) > 0 {
+		md, err := os.MkdirTemp("", "symgo-mod-")
+		if err != nil {
+			return nil, err
+		}
+		defer os.RemoveAll(md)
+		mf, err := prepareModfile(repo, hdir, cc, md)
+		if err != nil {
+			return nil, err
+		}
+		flags = append(flags, mf)
+	}
 	if len(cc.Tags) > 0 {
 		flags = append(flags, "-tags="+strings.Join(cc.Tags, ","))
 	}
